@@ -12,974 +12,1375 @@ Definition show_fres (r : fres) : string :=
   end.
 Definition check (rs : list rune) : string := digest (show_fres (format_res rs)).
 Definition full (rs : list rune) : string := show_fres (format_res rs).
-Eval vm_compute in ("<<<M5>>>" ++ check (runes_of_ascii "MetaData  asx {char[] MetaDataX ,
-lengthOf Z9_	, crc
-    Foo ,char[ 4294967296]
-BodyLength , Foo leftPad `doc`, tag // a // b
-u128 , } root packet
-    stringy { // trailing space 
-match Header as
-    repeatCount	{ [ ""{,}""] :
-Header
-/// triple
-//
-,255 :repeatCount , 00 :pack, 1 : trueish
-    , 7
-    : A }
-    ,
-T
-    {Z9_
-`
-` ,
-} ,
-    int16 o
-@calculatedFrom(
-""it's""
-) `line1
-line2`	, match zchar
-as As{ ""CRC32"" :	a1, 42: Header [ 10
+Eval vm_compute in ("<<<M1963>>>" ++ check (runes_of_ascii "// packet A { u8 x, }
+    root 
+packet	rootA{ repeat
+char[]
+    int 
+	    /// triple
+      `it's`	,  string
+
+    asx @calculatedFrom( 
+""a\""b"" 
+) 	 //x
+	`tab	here`
+,
+falsey 
+``	,
+	repeat  string metadata ``
     //
-    ] : zchar // trailing space 
-,
-    }// " ++ [128512]%N ++ runes_of_ascii " emoji
-, @tag( 42 )repeat i64_{
-    // c
-    char[00 ] _x `{ , }` ,
-}
-,repeat //x
-char[] uint8x
-`crlf
-line` ,@leftPad
-(	'\x00'
-    ) @tag( 7 )
-    int32
-// a // b
-// @lengthOf(
-repeatCount
-    @calculatedFrom(
-""x y"" )
-`// not a comment` , u32 zchar
-    `
-` , repeat stringy { i8i8 lengthOf
-, } , // packet A { u8 x, }
-@calculatedFrom(  ""abc"" ) @lengthOf( tag ) @lengthOf( /// triple
-rootA )  char[3	] // c
-rootA`" ++ [233]%N ++ runes_of_ascii "` ,// c
-}MetaData crc
-{
-float32
-asx `" ++ [233]%N ++ runes_of_ascii "` ,	string i64_// " ++ [128512]%N ++ runes_of_ascii " emoji
-,
-    }
-root packet Packet
-    //
-    {charz @lengthOf( zchar) ,	f32
-    f32a `{ , }` // a // b
-, i64 matchKey @lengthOf( leftPad )
-    , string trueish, @leftPad (  '0')
-    // trailing space 
-    tag@lengthOf( // a // b
-string_ ) `doc` , match stringy
-// @lengthOf(
-// @lengthOf(
-as calculatedFrom
-    { [
-0123456789 ]: repeatCount
-//	t
-//
-,} ,// trailing space 
-char[
-3]
-Header ,
-int64 MetaDataX
-,	@leftPad( ) len { packetx @lengthOf(chars ) `` ,
-    }, @rightPad ( '0'
-    )  x_y_z
-,
-} options{ rootA
-// packet A { u8 x, }
-//x
-= '0'
-; Foo =char
-    ;A
-    = zchar[ 0123456789 ]
 // " ++ [27880; 37322]%N ++ runes_of_ascii "
-//x
-;packetx = """ ++ [233]%N ++ runes_of_ascii "t" ++ [233]%N ++ runes_of_ascii """
-float = true } //x")).
-Eval vm_compute in ("<<<M225>>>" ++ check (runes_of_ascii "packet T
-    // " ++ [128512]%N ++ runes_of_ascii " emoji
-    { match repeatCount as
-Packet {
-    ""packet"" : msg_type , 00 :
-    Foo
-    ,""" ++ [128512]%N ++ runes_of_ascii """ : trueish, """": repeatCount
-    [ // packet A { u8 x, }
-4294967296 , 65535 ] :	u ,	}, @calculatedFrom( ""a\\"" )
-    float32 len @lengthOf(// " ++ [128512]%N ++ runes_of_ascii " emoji
-string_
-    ), stringy Pad, roots{ repeat x_y_z
-    `// not a comment`
-, T
-`" ++ [233]%N ++ runes_of_ascii "` , }, @tag(
-007 )  _x
-{// " ++ [128512]%N ++ runes_of_ascii " emoji
-char[] body
-@calculatedFrom( """ ++ [233]%N ++ runes_of_ascii "t" ++ [233]%N ++ runes_of_ascii """
-    //	t
-    ) ,repeat Pad// packet A { u8 x, }
-``
-// c
-/// triple
-, }
-    //x
-    , match	u as packetx{// `tick` ""quote"" 'q'
-[ ""// no comment"" ,
-007]	: T
-, [  ""\" ++ [233]%N ++ runes_of_ascii """// " ++ [27880; 37322]%N ++ runes_of_ascii "
-] :// trailing space 
-u8x } , @rightPad( ) int8 _x , @lengthOf(
-A	)match/// triple
-crc
-as metadata { [ 00,
-    //	t
-    ""a\""b"" ,3
-    , 1
-    ,
-10 ] : Packet , //	t
-[
-4294967296	, ""abc"" , """"] // @lengthOf(
-:
-// `tick` ""quote"" 'q'
-// " ++ [27880; 37322]%N ++ runes_of_ascii "
-a1 , """ ++ [28040; 24687]%N ++ runes_of_ascii """ // `tick` ""quote"" 'q'
-:
-    repeatCount  , } , }options { }MetaData Header
-{  trueish Pad ,
-    } MetaData Z9_ { char[]
-metadata ,
-// " ++ [128512]%N ++ runes_of_ascii " emoji
-// packet A { u8 x, }
-Header A
-`doc`
-// a // b
-// a // b
-, //x
-uint32 // " ++ [27880; 37322]%N ++ runes_of_ascii "
-packetx ,
-int16 uint8x
-    //
-    , Header// @lengthOf(
-leftPad
-    , // packet A { u8 x, }
-}
-// trailing space 
-")).
-Eval vm_compute in ("<<<M1725>>>" ++ check (runes_of_ascii "// top
-options {
-    // c1
-    LittleEndian = false;// c5
-    ArrayPrefixLenType = u8;// c9
-    FixedStringPadFromLeft = true;
-    FixedStringPadChar = '0';// c17a
-    // c17b
-}// c18
+    	, match x 
+    // @lengthOf(
+  as
 
-packet Heartbeat {
-    // c21
-    string lastPx,// c24
-    uint8 Qty,// c27
-    i64 Acct,
-    // c30
-    char[4] Ref,
-}// c36
+    chars
 
-packet Fill {
-    // c39a
-    // c39b
-    uint8 Ref,// c42a
-    // c42b
-    Heartbeat,
-    // c44
-    f32 OrderId,// c47
-    repeat f32 x,
-}// c52
-
-root packet Order {
-    // c56a
-    // c56b
-    zchar[2] OrderId,
-    // c61
-    zchar[2] Acct,
-    // c66
-    zchar[1] Note,// c71a
-    // c71b
-    zchar[9] Qty,
-    // c76
-    string price,
-    // c79
-    string tag7,
-    u32 x,
-    // c85
-    match x as Body {
-        // c90
-        123 : Fill,
-        // c94
-        112 : Heartbeat,
-        // c98a
-        // c98b
-    },// c100a
-    // c100b
-    u32 seqNo @calculatedFrom(""CRC32""),
-    // c106
-}
-// c107")).
-Eval vm_compute in ("<<<M1681>>>" ++ check (runes_of_ascii "options {
-    // " ++ [27880; 37322]%N ++ runes_of_ascii "
-    //x
-    float = char[];
-    Header = false
-    //
-    /// triple
-}
-
-// `tick` ""quote"" 'q'
-options {
-    x = char[];
-}
-
-MetaData i64_ {
-    f64 As `
-    `,
-    repeatCount MetaDataX,
-    repeatCount u128,
-    metadata msg_type `tab	here`,
-}
-
-packet options1 {
-    repeat char[0123456789] T,
-    @tag(65535)
-    //x
-    @calculatedFrom(""CRC32"")
-    @calculatedFrom(""" ++ [28040; 24687]%N ++ runes_of_ascii """)
-    repeat string Logon,
-    @lengthOf(u128)
-    stringy {
-        string_ x,
-    },
-    @tag(10)
-    u64 tag @lengthOf(roots),
-    Foo @lengthOf(Foo) `// not a comment`,
-    string pack `a\`,
-    match A as charz {
-        [3] : x,
-    },
-    @tag(42)
-    f64 msg_type @lengthOf(trueish),
-    match pack as options1 {
-        """ ++ [28040; 24687]%N ++ runes_of_ascii """ : string_,
-        [65535, 7, ""a\""b"", 7] : f32a,
-        4294967296 : o,
-    },
-    char[] falsey,
-}// " ++ [128512]%N ++ runes_of_ascii " emoji")).
-Eval vm_compute in ("<<<M1359>>>" ++ check (runes_of_ascii "options {
-    StringPrefixLenType = u16;
-    ArrayPrefixLenType = u32;
-    FixedStringPadFromLeft = true;
-    FixedStringPadChar = '0';
-}
-packet Cancel {
-}
-packet Party {
-}
-packet Logon {
-}
-packet Ack {
-}
-packet Logout {
-    repeat InSym87 {
-        InClordid94 {
-            string clOrdID,
-        },
-        string Px,
-        i16 Qty,
-        repeat InCount71 {
-            repeat Cancel,
-            uint16 Tail,
-            char[2] x,
-            repeat string Ref,
-        },
-        Cancel,
-    },
-}
-root packet Order {
-    repeat string tag7,
-    @leftPad(' ') char[3] Px,
-    u8 Qty,
-    match Qty as Body {
-        [28, 62] : Logon,
-        148 : Ack,
-        88 : Party,
-        184 : Cancel,
-    },
-    u16 Note @calculatedFrom(""CR\
-C32""),
-}
-")).
-Eval vm_compute in ("<<<M1860>>>" ++ check (runes_of_ascii "options {
-}
-
-packet i8i8 {
-    @tag(3)
-    x @calculatedFrom(""it's""),
-    @lengthOf(f32a)
-    match rootA as uint8x {
-        0 : string_,
-        42 : Packet,
-    },
-    @leftPad('\x00')
-    i64_ packetx `u8 x,`,
-    @calculatedFrom(""x y"")
-    matchKey {
-        len,
-    },
-    @lengthOf(matchKey)
-    @calculatedFrom(""abc"")
-    @lengthOf(x_y_z)
-    /// triple
-    repeat metadata `line1
-        line2`,
-    lengthOf repeatCount,/// triple
-    int32 roots @calculatedFrom(""`tick`"") `" ++ [233]%N ++ runes_of_ascii "`,
-    zchar[1] Packet @calculatedFrom(""// no comment""),
-}
-
-packet options1 {
-    @lengthOf(uint8x)
-    A @calculatedFrom(""it's"") `doc`,
-}
-
-root packet crc {
-    char[65535] chars,
-}")).
-Eval vm_compute in ("<<<M1551>>>" ++ check (runes_of_ascii "
-
-  packet stringy
-
-//	t
-
-	//
-{ 
-repeat
-
-T// trailing space 
-    {
-    u64  lengthOf  `tab	here`	,
-repeat
-_x
 {
-    match
-calculatedFrom	as  Header {	[ """ ++ [233]%N ++ runes_of_ascii "t" ++ [233]%N ++ runes_of_ascii """
-
-]: _x
-    ,	// @lengthOf(
-[
-""packet"" ]
-
-    : MetaDataX
-
-    ,255
-: u128
-    , 42
+007
 	:
-A
+    lengthOf	""// no comment""
+:
+o,
+[
+""" ++ [233]%N ++ runes_of_ascii "t" ++ [233]%N ++ runes_of_ascii """] 	 //	t
+  :
 
-""// no comment""
-    : body, } ,
-repeat
+len
 
-    crc
-    Foo ,	charz , }
+, [0123456789	,007
+
+,	""" ++ [233]%N ++ runes_of_ascii "t" ++ [233]%N ++ runes_of_ascii """, 	 // trailing space 
+42
+	,
+
+    0123456789
+	,
+
+""packet""
+    , 
+00 ] : x
+	,  },
+
+match pack
+	as
+
+int
+
+{	[// a // b
+1,""a\""b"" 
+,	""a\""b""
+    ]: x ,
+
+    },
+} root packet	int
+	{ char[ 10  ] len
+
+    @lengthOf(string_)
+
     ,
-    zchar[  1] i8i8@calculatedFrom(	""x y"" )
-    ,	uint8x 
-    // " ++ [27880; 37322]%N ++ runes_of_ascii "
-	Pad
+	@calculatedFrom(
 
+""1"" )  repeat 
+    //	t
+packetx  { char[ 42
+]Foo
+, 
+a1
+
+    A ,repeat
+
+    zchar[
+	1  ]i8i8  `a\` ,zchar[4294967296 
+]
+
+x_y_z 
+@lengthOf(
+T	)
+
+    `` ,  }  , char
+	chars 
+,repeat zchar[
+255
+
+]
+
+tag `tab	here`
+,
+@calculatedFrom(""it's""	//	t
+
+) 	 // packet A { u8 x, }
+	char[00
+	]
+
+    BodyLength
+    //x
+    // " ++ [128512]%N ++ runes_of_ascii " emoji
+    ``
+, 
+        //	t
+  /// triple
+    }
+    packet asx
+{	zchar[ 255  ]
+
+    x
+@lengthOf(
+
+    int
+
+    ) ,
+}
+    MetaData 
+repeatCount {
+a1
+    Logon	,
+
+    u8x
+As,char[ 
+	    /// triple
+      00 ]// c
+  metadata
 `line1
-line2` , }
+line2` ,	i32
+	Logon
 
-    , @lengthOf( u)  char[ 	 //x
-	  4294967296 
-]	crc ,	@tag(
-
-    007 	 //x
-
-)
-repeatCount, 
-repeat
-//x
-  char[]
-	Header
-
-    ,
-	@rightPad ( )
-char[]string_
-
-    `a\` ,  }
-
-")).
-Eval vm_compute in ("<<<M1509>>>" ++ check (runes_of_ascii "  options
-{	StringPrefixLenType
-=
-u8 ;ArrayPrefixLenType
-=
-	u8 ;
-	FixedStringPadFromLeft= false	; FixedStringPadChar =
-    ' ' ; }packet Ack
-{
-    char[]
-	tag7 ,	}packet
-Reject  { InSym61 {
-
-    repeat Ack 
-,	zchar[
-
-4 ]
-	f1 
-, },}packet Logout
+    `it's`
+,  string
+falsey,
+	}  packet  Z9_
+// trailing space 
+	// " ++ [27880; 37322]%N ++ runes_of_ascii "
+    { options1
 	{
-
-    char[ 4 ] clOrdID,	}
-
-root packet Cancel
-{
-	@leftPad
-    (
-
-    ' '  )
-
-char[
-10]price
-
-,
-u8
-    x ,
-
-u32
-    venue 
-@lengthOf( Body )
-
-,
-
-match
+	u32 
+MetaDataX	, char[ 1 ] 
+	// " ++ [128512]%N ++ runes_of_ascii " emoji
+  //x
 
 x
+@lengthOf( Header
+)
+    ,
+	repeatCount 
 
-    as
-    Body
-{	[  92
+/// triple
+	x_y_z
 ,
-175
-]	:
-	Logout , 26
-	: Reject ,
-	144 :
 
-    Ack
-    , 
+}
+,	float
+,
+	repeat
+    packetx 
+Z9_ , @rightPad  ( 
+      // trailing space 
+  // trailing space 
+  ' '
+) asx
+	{
+    string 
+asx	@lengthOf(  uint8x	// c
+)
+	,
+packetx
+
+    ,  char[  007] metadata	, }  ,  } ")).
+Eval vm_compute in ("<<<M125>>>" ++ check (runes_of_ascii "
+packet
+    o // @lengthOf(
+{
+    @leftPad(
+    ) @tag( 00
+)  int16 int
+    @lengthOf(
+Header )
+`
+`	,
+@leftPad (
+'\x00')
+    char[00// c
+]	body@lengthOf( // packet A { u8 x, }
+a1 ) `" ++ [28040; 24687; 31867; 22411]%N ++ runes_of_ascii "` , } packet roots
+{ Logon  `crlf
+line` ,}packet // `tick` ""quote"" 'q'
+_x
+// `tick` ""quote"" 'q'
+//
+{ zchar[4294967296
+] Header`
+`	,chars @calculatedFrom( ""1"" ) // packet A { u8 x, }
+, match As
+// 50% %s
+//
+as
+// @lengthOf(
+//x
+A {""`tick`""// " ++ [27880; 37322]%N ++ runes_of_ascii "
+:u }
+    , repeat string
+    zchar ,
+    repeat packetx { match
+pack
+    //x
+    as
+lengthOf
+    { 3: calculatedFrom
+    , 3
+    // packet A { u8 x, }
+    : metadata ,
+    ""abc"" // " ++ [128512]%N ++ runes_of_ascii " emoji
+:
+    falsey,4294967296 :
+len ,
+}  , match Packet as repeatCount
+{ [""a\\"", 1 , ""a\\"" ,0
+, ""packet"" , ""a	b"" ] : f32a
+    , 4294967296
+    :
+tag  1 :
+packetx  , [ ""\n"", 42 ,
+    4294967296
+    ,
+""a	b""
+    , 10
+,
+255 ,	007 ]
+:
+chars
+,  [ ""1"" ,""// no comment""
+,0 , // 50% %s
+1 ,""`tick`"" , 3 , 42 , ""\" ++ [233]%N ++ runes_of_ascii """ ]
+: BodyLength
+    }, // trailing space 
+},string u8x `" ++ [28040; 24687; 31867; 22411]%N ++ runes_of_ascii "`  ,
+    repeat
+    f32a{
+char[7 ] // " ++ [128512]%N ++ runes_of_ascii " emoji
+x_y_z `
+` // trailing space 
+,
+} , }
+MetaData Packet { chars u , char[]u8x
+,
+// 50% %s
+// trailing space 
+x_y_z
+    /// triple
+    asx
+    `" ++ [28040; 24687; 31867; 22411]%N ++ runes_of_ascii "`,
+int8 Header `{ , }` , zchar[
+4294967296 ]
+    rootA `u8 x,`
+/// triple
+//
+,
+char[] calculatedFrom, }
+")).
+Eval vm_compute in ("<<<M1895>>>" ++ check (runes_of_ascii "
+root packet 
+packetx
+
+{char[]
+
+    leftPad
+	@lengthOf( 
+chars ),
+@lengthOf( 
+u)	repeat
+
+    uint8
+float 
+,
+
+A  ,zchar[ 4294967296 ]string_@lengthOf(  float
+    )
+    ,  match
+    rootA
+    as
+As
+{  // " ++ [128512]%N ++ runes_of_ascii " emoji
+      [
+""it's"" ,
+
+255 ,  // 50% %s
+	  0123456789  ,""" ++ [233]%N ++ runes_of_ascii "t" ++ [233]%N ++ runes_of_ascii """ 
+,	""{,}"" ,  ""abc""
+
+    ,
+""" ++ [233]%N ++ runes_of_ascii "t" ++ [233]%N ++ runes_of_ascii """] : int
+,
+4294967296
+: tag// trailing space 
+, }
+
+,@calculatedFrom(
+	""\" ++ [233]%N ++ runes_of_ascii """
+// packet A { u8 x, }
+	) @lengthOf(
+	tag
+    ) match leftPad as
+	u 
+{ [
+
+    ""it's""
+
+]
+:string_	,} ,
+@calculatedFrom(  ""\n""
+
+    // 50% %s
+	  // packet A { u8 x, }
+  ) 
+@lengthOf( calculatedFrom
+
+    )
+	    // 50% %s
+@lengthOf(
+    // trailing space 
+
+  // trailing space 
+MetaDataX) charz
+, @tag(
+65535 
+)match	f32a as 
+rootA {
+
+[
+
+    """ ++ [128512]%N ++ runes_of_ascii """ ] 
+:
+falsey 0:  // packet A { u8 x, }
+    	MetaDataX
+    ,  // @lengthOf(
+	}
+,char[
+
+    007 ]
+    i8i8
+    @calculatedFrom(// c
+""" ++ [233]%N ++ runes_of_ascii "t" ++ [233]%N ++ runes_of_ascii """ 
+  // trailing space 
+		// " ++ [128512]%N ++ runes_of_ascii " emoji
+	) `
+`, }
+
+options
+	{
+trueish 
+
+    /// triple
+	= // c
+	true	;	rootA
+=
+""\" ++ [233]%N ++ runes_of_ascii """
+	;
+    trueish  = 
+false
+	; }	// a // b
+ 
+")).
+Eval vm_compute in ("<<<M224>>>" ++ check (runes_of_ascii "packet
+leftPad {
+@lengthOf( len
+)  Pad u
+`" ++ [28040; 24687; 31867; 22411]%N ++ runes_of_ascii "` , } root
+packet As{ uint16
+    calculatedFrom ,
+    // c
+    }packet
+Header { }
+packet
+int{@rightPad ( // " ++ [27880; 37322]%N ++ runes_of_ascii "
+'0'	)repeat
+Foo// @lengthOf(
+stringy ,
+len
+    // " ++ [27880; 37322]%N ++ runes_of_ascii "
+    { float64
+i64_ `it's` , } ,repeat
+MetaDataX//x
+{
+rootA
+`crlf
+line`	, match string_ as roots {""it's""
+    // @lengthOf(
+    :x 7
+    :
+    A //x
+, // @lengthOf(
+}
+,
+char
+u128 `" ++ [233]%N ++ runes_of_ascii "` ,}  , @lengthOf( MetaDataX ) @leftPad ('0' ) //
+@leftPad ( ) char[] body , @calculatedFrom(
+""""
+) calculatedFrom
+    trueish ,
+    Packet ,repeat As{
+    char[ 65535] Header , i8 /// triple
+Packet ,
+} ,  char[
+    00]	packetx
+@lengthOf(
+u8x) `u8 x,` // " ++ [27880; 37322]%N ++ runes_of_ascii "
+,
+    // " ++ [128512]%N ++ runes_of_ascii " emoji
+    @calculatedFrom( ""`tick`"" ) @lengthOf(
+A
+    )
+    match
+body
+as //
+i64_
+{// a // b
+[ 1 ] :
+// trailing space 
+// `tick` ""quote"" 'q'
+f32a, },	i8 _x @calculatedFrom(	""// no comment"" )
+// trailing space 
+// a // b
+``, }
+// a // b
+")).
+Eval vm_compute in ("<<<M1196>>>" ++ check (runes_of_ascii "// top
+options
+    // c0
+{
+    // c1
+}
+    // c2
+MetaData
+    // c3
+packetx
+    // c4
+{
+    // c5
+int
+    // c6
+falsey
+    // c7
+`two words`
+    // c8
+,
+    // c9
+int32
+    // c10
+trueish
+    // c11
+,
+    // c12
+char[]
+    // c13
+u8x
+    // c14
+,
+    // c15
+A
+    // c16
+x
+    // c17
+`// not a comment`
+    // c18
+,
+    // c19
+}
+    // c20
+root
+    // c21
+packet
+    // c22
+i8i8
+    // c23
+{
+    // c24
+@lengthOf(
+    // c25
+repeatCount
+    // c26
+)
+    // c27
+@tag(
+    // c28
+1
+    // c29
+)
+    // c30
+@calculatedFrom(
+    // c31
+""a	b""
+    // c32
+)
+    // c33
+string
+    // c34
+stringy
+    // c35
+@calculatedFrom(
+    // c36
+""\n""
+    // c37
+)
+    // c38
+`line1
+line2`
+    // c39
+,
+    // c40
+pack
+    // c41
+`100% of %d`
+    // c42
+,
+    // c43
+}
+    // c44
+")).
+Eval vm_compute in ("<<<M1390>>>" ++ check (runes_of_ascii "
+options{LittleEndian =true	;
+StringPrefixLenType =
+
+    u32
+	;
+
+    ArrayPrefixLenType= u8;}
+	packet
+    Heartbeat	{ 
+string
+
+    msgKind,
+}
+    packet
+
+Logon 
+{
+repeat  Heartbeat 
+,  repeat
+
+    string  Px ,
+
+uint8
+
+Tail 
+,	char[]
+
+    f1
+, }packet
+	Cancel
+	{
+	zchar[ 4  ]
+OrderId
+
+,
+    Logon  ,
+repeat
+
+    InMsgkind98{  repeat
+    u8
+
+tag7,
+	repeat
+	InFlags69
+{
+	char[]
+
+Note	,char[]
+lastPx
+
+    ,	char[ 11
+]
+	Ref ,
+Logon,}
+    ,repeat  Heartbeat , } , 
+zchar[
+
+    7	]
+
+Px 
+,
+	u32
+seqNo 
+,	}
+
+root
+
+    packet Reject {
+	i16
+tag7
+    ,
+	char[3
+
+] Qty
+
+    ,
+	InRef42 {  u8
+pad0
+
+,
 },
-u16
-count  @calculatedFrom(""CRC32""
-    ),
+uint32 f1 ,zchar[
+
+7]
+OrderId  ,zchar[ 
+8
+]x	,} ")).
+Eval vm_compute in ("<<<M1338>>>" ++ check (runes_of_ascii "// top
+packet
+    // c0
+Logon {
+    // c2
+string // c3
+user
+    // c4
+,
+    // c5
+} root packet // c8a
+  // c8b
+Frame // c9a
+  // c9b
+{
+    // c10
+u8
+    // c11
+K // c12a
+  // c12b
+,
+    // c13
+match K // c15a
+  // c15b
+as
+    // c16
+Body {
+    // c18
+1 // c19
+: // c20a
+  // c20b
+Logon // c21
+, // c22
+2
+    // c23
+:
+    // c24
+Logout // c25
+, // c26a
+  // c26b
+} , // c28a
+  // c28b
+Tail , } packet // c32
+Logout // c33a
+  // c33b
+{ // c34
+u16 // c35
+reason // c36a
+  // c36b
+,
+    // c37
+} // c38a
+  // c38b
+packet Tail
+    // c40
+{ // c41a
+  // c41b
+u32 crc // c43
+, } // c45
+")).
+Eval vm_compute in ("<<<M1883>>>" ++ check (runes_of_ascii "  root
+
+    packet  float { repeat  calculatedFrom
+metadata	`say ""hi""`,
+Pad
+	{ 	 // " ++ [27880; 37322]%N ++ runes_of_ascii "
+	repeat	string
+	o`" ++ [233]%N ++ runes_of_ascii "`
+
+    ,
+	match string_//	t
+
+as
+u8x
+{ 	 // trailing space 
+
+[ ""abc""
+
+] :
+    pack 
+,	[ ""a	b""	]
+
+:	// `tick` ""quote"" 'q'
+  len
+    00
+	:
+x
+[
+	""packet""
+]	: 
+uint8x, [ 
+""abc""
+
+    ,""""
+	//	t
+	,""{,}""	, 
+0123456789 ,""`tick`"",""" ++ [28040; 24687]%N ++ runes_of_ascii """
+	]:	//
+
+  Foo
+	, }, f64 
+a1
+// c
+`doc`,
 	}
 
-")).
-Eval vm_compute in ("<<<M1237>>>" ++ check (runes_of_ascii "// top
-options // c0
-{ // c1
-zchar // c2
-= // c3
-true // c4
-; // c5
-Pad // c6
-= // c7
-char[ // c8
-00 // c9
-] // c10
-a1 // c11
-= // c12
-uint32 // c13
-BodyLength // c14
-= // c15
-true // c16
-; // c17
-} // c18
-root // c19
-packet // c20
-T // c21
-{ // c22
-@lengthOf( // c23
-repeatCount // c24
-) // c25
-@tag( // c26
-1 // c27
-) // c28
-@calculatedFrom( // c29
-""a	b"" // c30
-) // c31
-string // c32
-stringy // c33
-@calculatedFrom( // c34
-""\n"" // c35
-) // c36
-`u8 x,` // c37
-, // c38
-} // c39
-")).
-Eval vm_compute in ("<<<M161>>>" ++ check (runes_of_ascii "packet rootA{ options1 _x , u64
-    Header , } packet lengthOf {
-    @rightPad ( ' '	)
-@lengthOf( u128 // trailing space 
-)	@calculatedFrom(	""a\""b"" )  A {string i64_	`it's`,
-//	t
-// trailing space 
-uint8
-body
-, match pack as u {
-// @lengthOf(
-// trailing space 
-00 : charz , 00: int ,3
-: falsey 255 :body
-    ,
-[0123456789 ] :x_y_z ,
-// a // b
-//
-}
-,
-} ,
-} MetaData chars{ u128
-    zchar , char[ 42  ]
-// a // b
-// a // b
-metadata
-    , }
-")).
-Eval vm_compute in ("<<<M306>>>" ++ check (runes_of_ascii "packet rootA { @tag(0123456789 ) options1 {int32 uint8x
-    `u8 x,`
-    , u8x
-//x
-// packet A { u8 x, }
-{
-    match Header as
-    metadata {[	10 ]
-: pack } ,
-    } , f64 // `tick` ""quote"" 'q'
-chars , }
-, @lengthOf( body ) u64
-// @lengthOf(
-//
-Z9_ , }
-MetaData repeatCount
-    {zchar[10 ] string_ , f64 A
-, u32 BodyLength , zchar[ 00 ] uint8x ,
-    trueish
-leftPad,char[ 65535  ] rootA	, }
-//	t
-")).
-Eval vm_compute in ("<<<M1886>>>" ++ check (runes_of_ascii "packet a1 {
-    @calculatedFrom(""`tick`"")
-    uint32 charz `crlf
-    line`,
-    // c
-    //x
-    a1 `tab	here`,
-}
+    ,	char[]
 
-options {
-    // " ++ [27880; 37322]%N ++ runes_of_ascii "
-    // " ++ [128512]%N ++ runes_of_ascii " emoji
-    stringy = 255;
-    metadata = 4294967296
-    pack = string;
-    crc = string;
-}
-
-root packet crc {
-    @tag(42)
-    @calculatedFrom(""abc"")
-    @rightPad('0')
-    u128 u8x,
-    @lengthOf(len)
-    uint16 int,
-}")).
-Eval vm_compute in ("<<<M323>>>" ++ check (runes_of_ascii "options{ }
-MetaData  string_ // `tick` ""quote"" 'q'
-{ u32
-matchKey `u8 x,`,
-    string  MetaDataX , uint8
-Logon, uint64 options1
-, char[ 00 ] len
-// `tick` ""quote"" 'q'
-// trailing space 
-`tab	here` , u8
-options1
-, }// a // b
-packet a1 { chars ,
-char[]
-i64_ @lengthOf(
-    // " ++ [27880; 37322]%N ++ runes_of_ascii "
-    stringy
-) ,char T,repeat i8 charz
-`a\`
-,
-}
-")).
-Eval vm_compute in ("<<<M205>>>" ++ check (runes_of_ascii "  root packet
-    chars{ string T `say ""hi""`
-, @tag(
-    1  ) body { repeat o { f64 Packet @calculatedFrom( ""a\\"") ,  } , }	,
-} packet pack
-// @lengthOf(
-// a // b
-{
-@tag( 4294967296 // `tick` ""quote"" 'q'
-) repeat char[]
-    Logon
-    // trailing space 
-    , repeat
-BodyLength len ,
-    // c
-    }")).
-Eval vm_compute in ("<<<M1360>>>" ++ check (runes_of_ascii "options {
-    LittleEndian = false;
-    StringPrefixLenType = u16;
-}
-packet Heartbeat {
-    @rightPad('0') char[7] seqNo,
-    uint64 Tail,
-    i16 Flags,
-    u16 msgKind,
-}
-root packet Reject {
-    zchar[3] tag7,
-    repeat Heartbeat,
-    repeat string clOrdID,
-}
-")).
-Eval vm_compute in ("<<<M190>>>" ++ check (runes_of_ascii "packet // @lengthOf(
-f32a
-    {	@rightPad (
-    '0' ) @lengthOf( BodyLength ) uint8 Foo ``,
-    //x
-    char[]
-    options1 @calculatedFrom(
-    ""it's"" ) ,@tag(255/// triple
-) uint64
-    Header @calculatedFrom( ""abc""
-) `
-`
-,}
-
-")).
-Eval vm_compute in ("<<<M207>>>" ++ check (runes_of_ascii "
-MetaData chars { } options
-{ As
-= true ;As // `tick` ""quote"" 'q'
-= false; stringy
-= true} packet repeatCount  {string
-    float@lengthOf(
-    matchKey )
-// packet A { u8 x, }
-//x
-`say ""hi""` ,
-}
-")).
-Eval vm_compute in ("<<<M1739>>>" ++ check (runes_of_ascii "packet A {
-    match k as n {
-        [
-            ""a"", ""bb"", ""c c"", ""d"", ""e"",
-            ""f"", ""g"", ""h"", ""i"", ""j"",
-            ""k"", ""l""
-        ] : B,
-        2 : C,
-    },
-}")).
-Eval vm_compute in ("<<<M431>>>" ++ check (runes_of_ascii "packet uint8x
-{ match pack
-    as msg_type	{
-    0123456789 0123456789 :	float
-}
-,
-} packet //	t
-a1
-    { } options {packetx
-    = '\x00'	; u128= ""a	b""  ; }
-")).
-Eval vm_compute in ("<<<M458>>>" ++ check (runes_of_ascii "packet uint8x
-{ match pack
-    as msg_type	{
-    0123456789 :	float
-}
-,
-char[] packet //	t
-a1
-    { } options {packetx
-    = '\x00'	; u128= ""a	b""  ; }
-")).
-Eval vm_compute in ("<<<M496>>>" ++ check (runes_of_ascii "packet uint8x
-{ match pack
-    as msg_type	{
-    0123456789 :	float
-}
-,
-} packet //	t
-a1
-    { } options {packetx
-    = = '\x00'	; u128= ""a	b""  ; }
-")).
-Eval vm_compute in ("<<<M417>>>" ++ check (runes_of_ascii "packet uint8x
-{ match pack
-    msg_type as	{
-    0123456789 :	float
-}
-,
-} packet //	t
-a1
-    { } options {packetx
-    = '\x00'	; u128= ""a	b""  ; }
-")).
-Eval vm_compute in ("<<<M445>>>" ++ check (runes_of_ascii "packet uint8x
-{ match pack
-    as msg_type	{
-    0123456789 :	float
-
-,
-} packet //	t
-a1
-    { } options {packetx
-    = '\x00'	; u128= ""a	b""  ; }
-")).
-Eval vm_compute in ("<<<M1667>>>" ++ check (runes_of_ascii "packet A {
-    Inner {
-        u8 x `tab
-                	x`,
-        Deep {
-            u8 y `tab
-                        	x`,
-        },
-    },
-}")).
-Eval vm_compute in ("<<<M657>>>" ++ check (runes_of_ascii "// @lengthOf(
-packet i8i8 { u128 o , }
-options { MetaDataX = true;
-    BodyLength =""packet"" x_y_z= 007
-?crc //x
-= ""abc"" ;
-    msg_type =
-i16 }")).
-Eval vm_compute in ("<<<M663>>>" ++ check (runes_of_ascii "// @lengthOf(
-packet i8i8 { u128 o , }
-options { MetaDataX = true;
-    BodyLength =""packet"" x_y_z= 007
-crc //x
-= ""abc"" ;
-    msg_type =
-i16 ")).
-Eval vm_compute in ("<<<M1443>>>" ++ check (runes_of_ascii "packet A {
-    match k as n {
-        [
-            1, 22, ""c c"", 4, 5,
-            ""f"", 7, 8, ""i""
-        ] : B,
-        2 : C,
-    },
-}")).
-Eval vm_compute in ("<<<M1464>>>" ++ check (runes_of_ascii "MetaData leftPad {
-    chars MetaDataX,
-}
-
-packet repeatCount {
-    // c
-    char[255] uint8x `" ++ [233]%N ++ runes_of_ascii "`,
-}
-
-MetaData pack {
-    As Foo,
-}")).
-Eval vm_compute in ("<<<M504>>>" ++ check (runes_of_ascii "packet uint8x
-{ match pack
-    as msg_type	{
-    0123456789 :	float
-}
-,
-} packet //	t
-a1
-    { } options {packetx
-    =")).
-Eval vm_compute in ("<<<M1149>>>" ++ check (runes_of_ascii "MetaData leftPad { chars // c
-MetaDataX , } packet repeatCount { char[ 255 ] uint8x `" ++ [233]%N ++ runes_of_ascii "` , } MetaData pack { As Foo , }")).
-Eval vm_compute in ("<<<M1181>>>" ++ check (runes_of_ascii "MetaData leftPad { chars MetaDataX , } packet repeatCount { char[ 255 ] uint8x `" ++ [233]%N ++ runes_of_ascii "` , } MetaData pack { // c
-As Foo , }")).
-Eval vm_compute in ("<<<M136>>>" ++ check (runes_of_ascii "// a // b
-options { // " ++ [128512]%N ++ runes_of_ascii " emoji
-calculatedFrom=
-'\x00'	; BodyLength = true ;asx // packet A { u8 x, }
-= true }")).
-Eval vm_compute in ("<<<M1279>>>" ++ check (runes_of_ascii "options {
-    LittleEndian = true;
-}
-root packet P {
-    u16 a,
-    u32 Sum @calculatedFrom(""CR\
-C32""),
-}
-")).
-Eval vm_compute in ("<<<M920>>>" ++ check (runes_of_ascii "packet A {
-    Inner {
-        u8 x `a
-b`,
-        Deep {
-            u8 y `a
-b`,
-        },
-    },
-}")).
-Eval vm_compute in ("<<<M258>>>" ++ check (runes_of_ascii "packet
-    metadata{ u32 // `tick` ""quote"" 'q'
-Packet `say ""hi""`
-,
-    // trailing space 
-    }")).
-Eval vm_compute in ("<<<M863>>>" ++ check (runes_of_ascii "packet A {
-  match k as n {
-    [""a"", ""bb"", 007, ""d"", ""e"", 66, ""g"", ""h""] : B
-    2 : C
-  },
-}")).
-Eval vm_compute in ("<<<M842>>>" ++ check (runes_of_ascii "packet A {
-  match k as n {
-    [""a"", ""bb"", ""c c"", ""d"", ""e"", ""f"", ""g""] : B
-    2 : C
-  },
-}")).
-Eval vm_compute in ("<<<M609>>>" ++ check (runes_of_ascii "
+    Pad
+`{ , }` ,	} root
 packet
-    asx {match u128 as lengthOf
+
+    a1
+{repeat
+i64_  stringy 
+, 	 // 50% %s
+  	}
+	MetaData
+
+Packet{
+	int32
+
+tag
+,}
+")).
+Eval vm_compute in ("<<<M239>>>" ++ check (runes_of_ascii "MetaData pack  {float32 Header
+    `two words` //
+, rootA charz `" ++ [233]%N ++ runes_of_ascii "`
+, //
+int32 falsey`doc`, }packet matchKey { i64_ { float64 tag
+@lengthOf( msg_type) , u8x f32a,
+    Pad
 {
-//	t
-// `tick` ""quote"" 'q'
-255 : x }
-    , ,	}")).
-Eval vm_compute in ("<<<M1086>>>" ++ check (runes_of_ascii "packet A { match k as n // a
- { // b
- 1 // c
- : // d
- B // e
- , // f
- } // g
- , // h
- }")).
-Eval vm_compute in ("<<<M1717>>>" ++ check (runes_of_ascii "packet order_item {
-    u8 a,
+char[ 10 ]
+// trailing space 
+// @lengthOf(
+f32a `// not a comment`,},
+int {repeat
+    packetx { char[] T @calculatedFrom( ""it's"" )
+, } , } , } , char[ 255
+] trueish@lengthOf(calculatedFrom// " ++ [128512]%N ++ runes_of_ascii " emoji
+) //	t
+, repeat rootA string_ ,
 }
+packet x_y_z	{  @lengthOf( i64_
+    )BodyLength `" ++ [233]%N ++ runes_of_ascii "`
+// @lengthOf(
+//	t
+, }")).
+Eval vm_compute in ("<<<M1420>>>" ++ check (runes_of_ascii "packet body { @leftPad  // " ++ [27880; 37322]%N ++ runes_of_ascii "
 
-root packet new_order {
-    order_item,
-    u8 x,
-}")).
-Eval vm_compute in ("<<<M1632>>>" ++ check (runes_of_ascii "packet
+  ('0'	)
 
-    body { 
-    // c
-    i32 f32a
-    `{ , }`
+stringy 
+roots 
+,	@rightPad ('0'	)
+asx  @lengthOf( _x
+	)
 
 ,
-    } options
+    //	t
+	}
 
-{ 
+    packet chars
+	{
+
+@tag( 255 )  i32 
+msg_type  , 
+o
+	{ pack
+@calculatedFrom(  ""abc""	) 
+, match rootA
+    as 
+tag	{ 
+[
+
+0123456789 
+	    // @lengthOf(
+	,	7
+
+    ] :len
+    ,} , u32 BodyLength
+
+@calculatedFrom( ""packet""
+
+)  `say ""hi""` ,
+lengthOf
+    u	,
+},@rightPad  (' '
+)  repeat
+f32a,  }
+
+MetaData  msg_type
+    {
+
+}")).
+Eval vm_compute in ("<<<M1522>>>" ++ check (runes_of_ascii "// top
+options {
+    // c1
+}// c2
+
+MetaData packetx {
+    // c5
+    int falsey `two words`,// c9
+    int32 trueish,// c12
+    char[] u8x,// c15
+    A x `// not a comment`,// c19
+}// c20
+
+root packet i8i8 {
+    // c24
+    @lengthOf(repeatCount)
+    // c27
+    @tag(1)
+    // c30
+    @calculatedFrom(""a	b"")
+    // c33
+    string stringy @calculatedFrom(""\n"") `line1
+    line2`,// c40
+    pack `100% of %d`,// c43
+}// c44")).
+Eval vm_compute in ("<<<M1876>>>" ++ check (runes_of_ascii "  packet 
+Logon
+
+{char[	0123456789
+]
+Pad`a\`,	match pack//	t
+
+as
+    As
+	{ [""1""
+
+    ,
+""a	b"",
+0, ""packet""]	// @lengthOf(
+  :
+u  ,
+7
+: asx
+, }	,
+@lengthOf(
+
+Logon
+	)
+match 
+A  as zchar  //
+	{
+10:o
+
+    , 
+}, 
+@leftPad
+    (  // " ++ [128512]%N ++ runes_of_ascii " emoji
+	'0' 
+) o
+
+    {
+repeat f32 Logon 
+, repeatCount @calculatedFrom(
+    ""\n""  ), 
+    // @lengthOf(
+	// `tick` ""quote"" 'q'
+	  }	,  }")).
+Eval vm_compute in ("<<<M231>>>" ++ check (runes_of_ascii "MetaData	Logon /// triple
+{
+char[255 ]
+// trailing space 
+// `tick` ""quote"" 'q'
+msg_type
+,
+    A msg_type , char[
+4294967296
+    ]u ,// 50% %s
+} root packet
+    /// triple
+    uint8x
+    { match _x as len
+    { 255
+    : a1 , 10
+    // a // b
+    : options1
+    } ,
+crc
+    // a // b
+    ,
+@lengthOf(
+Header ) repeat roots `say ""hi""`,
+//
+// c
 }
 ")).
-Eval vm_compute in ("<<<M826>>>" ++ check (runes_of_ascii "packet A {
+Eval vm_compute in ("<<<M1396>>>" ++ check (runes_of_ascii "options {
+	LittleEndian
+= true ; 
+} 
+packet
+    Sub { u8 a
+
+    ,	@calculatedFrom(  ""CRC16""
+
+    )  uint64
+    SubSum  , 
+}
+    root
+	packet Frame  {
+	u16 MsgType
+    , u16
+BodyLen @lengthOf(
+	Body 
+)
+	,	Sub Body,string
+    note 
+,
+@calculatedFrom(""CRC16"" 
+)  uint64
+
+    Checksum,	u8
+
+    tail,
+}
+")).
+Eval vm_compute in ("<<<M1647>>>" ++ check (runes_of_ascii "packet a1 {
+    zchar[0] x `say ""hi""`,
+}
+
+packet BodyLength {
+    match Pad as A {
+        ""\n"" : len,
+    },
+}
+
+MetaData repeatCount {
+    string tag,
+}
+
+MetaData trueish {
+    u128 string_,
+    char[00] o,
+    string tag,
+}
+
+packet calculatedFrom {
+    BodyLength `tab	here`,
+}")).
+Eval vm_compute in ("<<<M402>>>" ++ check (runes_of_ascii "packet
+    asx { @calculatedFrom( @calculatedFrom(
+""""  ) @tag( 255 )repeat
+// packet A { u8 x, }
+// trailing space 
+int16 u8x
+,
+@tag(
+    //
+    007 )
+    @tag( 0
+    /// triple
+    ) @tag( 1) u
+    @lengthOf( T ),
+// `tick` ""quote"" 'q'
+//x
+} // " ++ [128512]%N ++ runes_of_ascii " emoji")).
+Eval vm_compute in ("<<<M422>>>" ++ check (runes_of_ascii "packet
+    asx { @calculatedFrom(
+""""  ) @tag( 255 255 )repeat
+// packet A { u8 x, }
+// trailing space 
+int16 u8x
+,
+@tag(
+    //
+    007 )
+    @tag( 0
+    /// triple
+    ) @tag( 1) u
+    @lengthOf( T ),
+// `tick` ""quote"" 'q'
+//x
+} // " ++ [128512]%N ++ runes_of_ascii " emoji")).
+Eval vm_compute in ("<<<M533>>>" ++ check (runes_of_ascii "packet
+    asx { @calculatedFrom(
+""""  ) @tag( 255 )repeat
+// packet A { u8 x, }
+// trailing space 
+int16 u8x
+,
+@tag(
+    //
+    007 )
+    @tag( 0
+    /// triple
+    ) @tag( 1) u
+    @lengthOf( T ),
+// `tick` ""quote"" 'q'
+//x
+}"" // " ++ [128512]%N ++ runes_of_ascii " emoji")).
+Eval vm_compute in ("<<<M483>>>" ++ check (runes_of_ascii "packet
+    asx { @calculatedFrom(
+""""  ) @tag( 255 )repeat
+// packet A { u8 x, }
+// trailing space 
+int16 u8x
+,
+@tag(
+    //
+    007 )
+    @tag( 0
+    /// triple
+    ) 1 @tag() u
+    @lengthOf( T ),
+// `tick` ""quote"" 'q'
+//x
+} // " ++ [128512]%N ++ runes_of_ascii " emoji")).
+Eval vm_compute in ("<<<M459>>>" ++ check (runes_of_ascii "packet
+    asx { @calculatedFrom(
+""""  ) @tag( 255 )repeat
+// packet A { u8 x, }
+// trailing space 
+int16 u8x
+,
+@tag(
+    //
+    [ )
+    @tag( 0
+    /// triple
+    ) @tag( 1) u
+    @lengthOf( T ),
+// `tick` ""quote"" 'q'
+//x
+} // " ++ [128512]%N ++ runes_of_ascii " emoji")).
+Eval vm_compute in ("<<<M1264>>>" ++ check (runes_of_ascii "packet Inner
+    // c1
+{ // c2a
+  // c2b
+u8 // c3
+a // c4
+,
+    // c5
+} // c6a
+  // c6b
+root // c7
+packet // c8
+P // c9
+{ repeat
+    // c11
+Inner items // c13a
+  // c13b
+, // c14a
+  // c14b
+u8 x
+    // c16
+, }
+    // c18
+")).
+Eval vm_compute in ("<<<M1826>>>" ++ check (runes_of_ascii "  root
+
+    packet Frame
+    {
+
+u8  K , 
+Logon 
+first 
+,
+	match	K as	Body	{1 
+: 
+Logon
+,
+
+2 :
+Logout 
+, }
+
+    , }
+packet Logon {
+string
+user ,	} packet  Logout {
+
+    u16
+reason,
+
+    } ")).
+Eval vm_compute in ("<<<M1744>>>" ++ check (runes_of_ascii "
+MetaData  u
+	{}
+    MetaData o{
+	float uint8x
+    `100% of %d` ,repeatCount
+u8x ,string_ leftPad ,i32 
+Foo 
+,
+    int64	x 
+`two '1'words` , calculatedFrom stringy
+    `a\` 
+, 
+} ")).
+Eval vm_compute in ("<<<M714>>>" ++ check (runes_of_ascii "packet
+crc
+int64 repeat  Foo A  `u8 x,` ,	@lengthOf( uint8x ) string
+matchKey @lengthOf( stringy ) `a\`
+,
+    // c
+    }
+MetaData chars{
+leftPad
+    //	t
+    crc
+`" ++ [233]%N ++ runes_of_ascii "`
+,}")).
+Eval vm_compute in ("<<<M562>>>" ++ check (runes_of_ascii "MetaData u
+    { } } MetaData o
+{ float uint8x
+`100% of %d` ,repeatCount u8x, string_ leftPad
+, i32
+    Foo , int64 x `two words` , calculatedFrom
+stringy `a\` ,
+}
+")).
+Eval vm_compute in ("<<<M1678>>>" ++ check (runes_of_ascii "MetaData o {
+}
+
+MetaData Header {
+    repeatCount matchKey,
+}
+
+packet As {
+    // c
+    @tag(0123456789)
+    char[] tag,
+    @calculatedFrom(""x y"")
+    crc `it's`,
+}")).
+Eval vm_compute in ("<<<M678>>>" ++ check (runes_of_ascii "MetaData u
+    { } MetaData o
+{ float uint8x
+`100% of %d` ,repeatCount u8x, string_ leftPad
+, i32
+    Foo , int64 x `two words` , calculatedFrom
+stringy , `a\`
+}
+")).
+Eval vm_compute in ("<<<M1312>>>" ++ check (runes_of_ascii "
+packet  A
+{	u8 a
+,
+	}  packet  B { u16
+	b,} root 
+packet
+	P
+{ u8
+
+K  ,
+match
+
+    K as M
+{[1 ,
+	2  ]
+: A
+
+,  3
+
+    :
+    B, 
+7  :
+A
+    ,  },
+
+    }
+
+")).
+Eval vm_compute in ("<<<M659>>>" ++ check (runes_of_ascii "MetaData u
+    { } MetaData o
+{ float uint8x
+`100% of %d` ,repeatCount u8x, string_ leftPad
+, i32
+    Foo , int64 x } , calculatedFrom
+stringy `a\` ,
+}
+")).
+Eval vm_compute in ("<<<M675>>>" ++ check (runes_of_ascii "MetaData u
+    { } MetaData o
+{ float uint8x
+`100% of %d` ,repeatCount u8x, string_ leftPad
+, i32
+    Foo , int64 x `two words` , calculatedFrom")).
+Eval vm_compute in ("<<<M1635>>>" ++ check (runes_of_ascii "packet A {
+    B b `a
+            b
+          c`,
+    B `a
+            b
+          c`,
+    repeat B bs `a
+            b
+          c`,
+}")).
+Eval vm_compute in ("<<<M281>>>" ++ check (runes_of_ascii "packet lengthOf{
+len charz `it's`, }options
+{ } packet metadata {string Pad @calculatedFrom( """ ++ [128512]%N ++ runes_of_ascii """)
+    `crlf
+line` , } // " ++ [128512]%N ++ runes_of_ascii " emoji")).
+Eval vm_compute in ("<<<M460>>>" ++ check (runes_of_ascii "packet
+    asx { @calculatedFrom(
+""""  ) @tag( 255 )repeat
+// packet A { u8 x, }
+// trailing space 
+int16 u8x
+,
+@tag(")).
+Eval vm_compute in ("<<<M1208>>>" ++ check (runes_of_ascii "options { }
+// c
+options { MetaDataX = char ; } MetaData Pad { i8 metadata , string stringy , int8 As `{ , }` , }")).
+Eval vm_compute in ("<<<M1240>>>" ++ check (runes_of_ascii "options { } options { MetaDataX = char ; } MetaData Pad { i8 metadata , string stringy ,
+// c
+int8 As `{ , }` , }")).
+Eval vm_compute in ("<<<M917>>>" ++ check (runes_of_ascii "packet A {
+    u16 len @lengthOf(body) `a
+b`,
+    u32 crc @calculatedFrom(""CRC32"") `a
+b`,
+    string body,
+}")).
+Eval vm_compute in ("<<<M1707>>>" ++ check (runes_of_ascii "  packet orderItem  { 
+u8
+a,}
+
+    root
+packet
+
+    newOrder  {
+orderItem
+,
+    u8
+	x
+
+    , } ")).
+Eval vm_compute in ("<<<M1547>>>" ++ check (runes_of_ascii "  packet
+
+A {	match
+
+k
+as
+n {	[ 
+1	,""bb"", 007
+
+    , 
+""d"" ,	5,""f""
+    ]  :B
+    2:  C
+} , }
+")).
+Eval vm_compute in ("<<<M1778>>>" ++ check (runes_of_ascii "  packet
+A
+
+{
+
+    B b `a
+    b
+  c` 
+,
+	B  `a
+    b
+  c` 
+,repeat 
+B bs	`a
+    b
+  c`
+, }
+")).
+Eval vm_compute in ("<<<M847>>>" ++ check (runes_of_ascii "packet A {
   match k as n {
-    [1, 22, 007, 4, 5, 66] : B,
+    [""a"", ""bb"", 007, ""d"", ""e"", 66, ""g""] : B,
     2 : C
   },
 }")).
-Eval vm_compute in ("<<<M960>>>" ++ check (runes_of_ascii "packet A {
-    B b `tab
-	x`,
-    B `tab
-	x`,
-    repeat B bs `tab
-	x`,
+Eval vm_compute in ("<<<M1599>>>" ++ check (runes_of_ascii "packet A {
+    match k as n {
+        [""a"", ""bb"", ""c c""] : B,
+        2 : C,
+    },
 }")).
-Eval vm_compute in ("<<<M1280>>>" ++ check (runes_of_ascii "root packet P {
-    u16 a,
-    u32 Sum @calculatedFrom(""CRC32""),
-}
+Eval vm_compute in ("<<<M45>>>" ++ check (runes_of_ascii "root packet
+// a // b
+/// triple
+msg_type{ uint64 matchKey@lengthOf(
+    _x ), }
 ")).
-Eval vm_compute in ("<<<M783>>>" ++ check (runes_of_ascii "packet A {
+Eval vm_compute in ("<<<M1790>>>" ++ check (runes_of_ascii "
+packet
+
+A {
+match
+
+k
+
+    as n
+{ [
+    1
+, 22	,  007
+]:
+	B	2 :
+	C } 
+,}
+")).
+Eval vm_compute in ("<<<M804>>>" ++ check (runes_of_ascii "packet A {
   match k as n {
-    [1, ""bb""] : B
+    [""a"", 22, ""c c"", 4] : B,
     2 : C
   },
 }")).
-Eval vm_compute in ("<<<M1617>>>" ++ check (runes_of_ascii "root packet string_ {
-    char[] matchKey,
-}
+Eval vm_compute in ("<<<M792>>>" ++ check (runes_of_ascii "packet A {
+  match k as n {
+    [""a"", 22, ""c c""] : B
+    2 : C
+  },
+}")).
+Eval vm_compute in ("<<<M1972>>>" ++ check (runes_of_ascii "root packet P {
+    u8 s_u8,
+    repeat u8 r_u8,
+    u16 b_len,
+}")).
+Eval vm_compute in ("<<<M1739>>>" ++ check (runes_of_ascii "  packet
+A
+	{match k
+as  n {[ 
+1	, ""bb""
 
-packet x {
-}")).
-Eval vm_compute in ("<<<M1078>>>" ++ check (runes_of_ascii "// a
-MetaData M {} // b
-// c
-MetaData N {} // d
-// e")).
-Eval vm_compute in ("<<<M181>>>" ++ check (runes_of_ascii "options{ packetx=// " ++ [27880; 37322]%N ++ runes_of_ascii "
-string Logon // " ++ [27880; 37322]%N ++ runes_of_ascii "
-=  int8}")).
-Eval vm_compute in ("<<<M1221>>>" ++ check (runes_of_ascii "// top
-packet // c0
-x // c1
-{ // c2
-} // c3
+]: B
+	2 :
+C }	,}")).
+Eval vm_compute in ("<<<M1138>>>" ++ check (runes_of_ascii "// top
+root // c0
+packet // c1
+a1 // c2
+{ // c3
+} // c4
 ")).
-Eval vm_compute in ("<<<M1742>>>" ++ check (runes_of_ascii "
-options {a
-	= 
-""x\
-y""; b
-    =""x\
-y""
+Eval vm_compute in ("<<<M1092>>>" ++ check (runes_of_ascii "packet A {} packet B {} MetaData M {} options {}")).
+Eval vm_compute in ("<<<M990>>>" ++ check (runes_of_ascii "options {
+    a = ""%d%s"";
+    b = ""%d%s""
+}")).
+Eval vm_compute in ("<<<M1086>>>" ++ check (runes_of_ascii "packet A {    u8 x, // c    u8 y,}")).
+Eval vm_compute in ("<<<M1191>>>" ++ check (runes_of_ascii "options { A = ""// no comment"" // c
+}")).
+Eval vm_compute in ("<<<M752>>>" ++ check (runes_of_ascii "K""kF<NCf7hLi{m{6<\cF\H9]3_e'\jS3a")).
+Eval vm_compute in ("<<<M975>>>" ++ check (runes_of_ascii "packet A {
+    u8 x `%%d%!`,
+}")).
+Eval vm_compute in ("<<<M770>>>" ++ check (runes_of_ascii "match char[ false @lengthOf(")).
+Eval vm_compute in ("<<<M1151>>>" ++ check (runes_of_ascii "root packet a1 { } // c
+")).
+Eval vm_compute in ("<<<M1124>>>" ++ check (runes_of_ascii "MetaData // c
+tag { }")).
+Eval vm_compute in ("<<<M1025>>>" ++ check (runes_of_ascii "packet A {
 }
-")).
-Eval vm_compute in ("<<<M1092>>>" ++ check (runes_of_ascii "root // a
- packet // b
- A // c
- { }")).
-Eval vm_compute in ("<<<M1609>>>" ++ check (runes_of_ascii "packet A {
-    u8 x `d" ++ [6158]%N ++ runes_of_ascii "`,// c" ++ [6158]%N ++ runes_of_ascii "
-}")).
-Eval vm_compute in ("<<<M1038>>>" ++ check (runes_of_ascii "packet A {
- u8 x `d" ++ [12]%N ++ runes_of_ascii "`, // c" ++ [12]%N ++ runes_of_ascii "
-}")).
-Eval vm_compute in ("<<<M1901>>>" ++ check (runes_of_ascii "
-packet	x { // c
-      }
-
-")).
-Eval vm_compute in ("<<<M1112>>>" ++ check (runes_of_ascii "MetaData tag { }
-// c
-")).
-Eval vm_compute in ("<<<M1836>>>" ++ check (runes_of_ascii "packet leftPad  {}
-")).
-Eval vm_compute in ("<<<M996>>>" ++ check (runes_of_ascii "packet A {
-}
-// c" ++ [5760]%N)).
-Eval vm_compute in ("<<<M1611>>>" ++ check (runes_of_ascii "// trailing space ")).
-Eval vm_compute in ("<<<M11>>>" ++ check (runes_of_ascii "packet zchar { }")).
-Eval vm_compute in ("<<<M749>>>" ++ check ([1; 65533]%N ++ runes_of_ascii ">&EQX" ++ [65533]%N ++ runes_of_ascii "P" ++ [65533; 65533]%N)).
-Eval vm_compute in ("<<<M1764>>>" ++ check (runes_of_ascii "// " ++ [27880; 37322]%N)).
+// c" ++ [8202]%N)).
+Eval vm_compute in ("<<<M998>>>" ++ check (runes_of_ascii "packet A {
+}// c" ++ [12288]%N)).
+Eval vm_compute in ("<<<M763>>>" ++ check (runes_of_ascii "qGUQn" ++ [65533; 65533]%N ++ runes_of_ascii "_O" ++ [65533; 65533]%N ++ runes_of_ascii "}3" ++ [65533]%N ++ runes_of_ascii "I")).
+Eval vm_compute in ("<<<M1059>>>" ++ check (runes_of_ascii "// c 	")).
+Eval vm_compute in ("<<<M1619>>>" ++ check (runes_of_ascii "  ")).
